@@ -387,6 +387,13 @@ def check_apply(rng):
     gen4 = np.hstack([pts, np.array([[rng.choice([0.0, 2.0, -1.0, 0.5])] for _ in range(len(pts))])])
     g_apply = s.apply(gen4)
     g_mat = (np.asarray(s.seitz_matrix) @ gen4.T).T
+    # the call operator is another spelling of apply, for 3-vectors and homogeneous vectors alike
+    try:
+        c4, c3b = s(gen4), s(pts)
+        if not (np.allclose(c4, g_apply, rtol=0, atol=1e-12) and np.allclose(c3b, a3, rtol=0, atol=1e-12)):
+            return f"operation {ref_str(rot, digs)}: op(x) differs from op.apply(x)", (rot, digs)
+    except Exception as ex:  # noqa
+        return f"operation {ref_str(rot, digs)}: op(x) raised {type(ex).__name__}: {ex} where op.apply(x) works", (rot, digs)
     if not np.allclose(g_apply, g_mat, rtol=0, atol=1e-9):
         return (f"operation {ref_str(rot, digs)}: apply() on homogeneous vectors with w = {gen4[:, 3].tolist()} differs from the 4x4 matrix product by "
                 f"{np.abs(g_apply - g_mat).max():.3g}"), (rot, digs)
@@ -400,6 +407,28 @@ def check_apply(rng):
             return (f"{name} {ref_str(rot, digs)} (stored translation {np.asarray(op.translation).tolist()}): Cartesian form and apply() differ by "
                     f"{np.abs(cart @ Rc2 + uc.to_cartesian(op.translation) - uc.to_cartesian(x3)).max():.3g} A"), (rot, digs)
     return None, None
+
+
+def check_identity_spellings(rng):
+    """the identity is the identity however it was obtained: from its code, its matrix, or any spelling of x,y,z (also plus whole cells)"""
+    from chmpy.crystal import symmetry_operation as so
+    from chmpy.crystal.space_group import SpaceGroup
+    S = so.SymmetryOperation
+    for sp in ("x,y,z", "x, y, z", "X,Y,Z", "+x,+y,+z", " x ,y, z", "x+1,y,z-2", "1+x,y,z"):
+        o = S.from_string_code(sp)
+        if not (o == S.identity() and hash(o) == hash(S.identity()) and o.is_identity() and int(o.integer_code) == 16484):
+            return f"from_string_code({sp!r}) is not recognised as the identity (is_identity() = {o.is_identity()}, code {int(o.integer_code)})"
+    n = rng.choice([2, 14, 19, 62, 146, 167])
+    sg = SpaceGroup(n)
+    ops = [S.from_string_code("x, y, z" if int(o.integer_code) == 16484 else str(o).upper().replace(",", ", ")) for o in sg.symmetry_operations]
+    sg2 = SpaceGroup.from_symmetry_operations(ops)
+    try:
+        first = sg2.ordered_symmetry_operations()[0]
+        if not first.is_identity():
+            return f"ordered_symmetry_operations() of space group {n} read from x,y,z strings does not start with the identity"
+    except Exception as ex:  # noqa
+        return f"ordered_symmetry_operations() of space group {n} read from x,y,z strings raised {type(ex).__name__}: {ex}"
+    return None
 
 
 def check_crystal_cartesian(rng):
@@ -492,6 +521,12 @@ def search(ctx, budget):
         r, w = check_apply(rng)
         if r:
             ctx.fail("C11:apply", r, {"kind": "apply", "op": w})
+    try:
+        r = check_identity_spellings(rng)
+    except Exception as e:  # noqa
+        r = f"identity spellings raised {type(e).__name__}: {e}"
+    if r:
+        ctx.fail("C11:identity", r, {"kind": "identity"})
     for _ in range(40 if budget == "quick" else 300):
         try:
             r = check_crystal_cartesian(rng)
